@@ -746,6 +746,19 @@ def molecules(rnd, tier, max_n_quick=4, max_n_thorough=5, per_graph=1):
         atoms = [{"sym": "C"} for _ in range(n)]
         atoms[rnd.randrange(n)] = {"sym": "C", "mass": 13}
         out.append((atoms, chain + [[n - 1, 0]]))
+    for _ in range(40 if tier == "quick" else 400):
+        # sparse multi-component records (salts, mixtures): few bonds, several unbonded atoms, wide spread of atomic numbers
+        n = rnd.randint(4, 8)
+        atoms = [{"sym": rnd.choice(["H", "C", "N", "Na", "Cl", "K", "Br", "S", "I"])} for _ in range(n)]
+        pairs = [[i, j] for i in range(n) for j in range(i + 1, n)]
+        rnd.shuffle(pairs)
+        k = rnd.randint(1, max(1, n - 3))
+        used, edges = set(), []
+        for i, j in pairs:
+            if len(edges) < k and i not in used and (j not in used or rnd.random() < .3):
+                edges.append([i, j])
+                used.update((i, j))
+        out.append((atoms, edges))
     for name, (n, edges) in SYMMETRIC.items():
         for variant in range(2 if tier == "quick" else 4):
             atoms = [{"sym": "C"} for _ in range(n)]
@@ -997,6 +1010,10 @@ def gen_c07(T, tier, seed, budget, out: Outcome):
     out.rule = ("abstract molecules (<=5 atoms over C,N,O,H,D,T,Cl,Fe,Og; charges, radicals, masses incl. explicit zeros) rendered as V3000 with random "
                 "blank runs (1-3), 0-3 continuation cuts at arbitrary positions, shuffled key=value order, 0-2 foreign spec keywords per line (incl. EXACHG), "
                 "3 index maps, optional CRLF. Non-trivial = distinct renderings.")
+    for m, star in star_ring_cases(rnd):
+        text = molgen.render_v3000(rnd, m, star=star)
+        mol_bonds = [list(b) for b in m.bonds] + [[star[0], e, star[2]] for e in star[1]]
+        out.run(T, "c07", {"mol": {"atoms": m.atoms, "bonds": mol_bonds}, "text": text}, text)
     for _ in range(n):
         if time.time() - t0 > budget or len(out.violations) >= 3:
             return
@@ -1012,6 +1029,17 @@ def gen_c07(T, tier, seed, budget, out: Outcome):
         text = molgen.render_v3000(rnd, m, crlf=rnd.random() < .15, star=star)
         mol_bonds = [list(b) for b in m.bonds] + ([[star[0], e, star[2]] for e in star[1]] if star else [])
         out.run(T, "c07", {"mol": {"atoms": m.atoms, "bonds": mol_bonds}, "text": text}, text)
+
+
+def star_ring_cases(rnd):
+    """metal atom multi-attached to all atoms of a carbon ring of n atoms (n incl. two-digit endpoint counts)"""
+    for n in (3, 5, 9, 10, 12, 24):
+        atoms = [{"sym": "C", "x": float(i), "y": 0.0, "z": 0.0} for i in range(n)] + [{"sym": "Fe", "x": 0.0, "y": 5.0, "z": 0.0}]
+        bonds = [(i, (i + 1) % n, 1) for i in range(n)]
+        m = molgen.Mol(atoms, bonds)
+        ends = list(range(n))
+        rnd.shuffle(ends)
+        yield m, (n, ends, 9)
 
 
 def gen_c08(T, tier, seed, budget, out: Outcome):
